@@ -1162,6 +1162,50 @@ mod tests {
     }
 
     #[test]
+    fn test_write_values_with_end_of_vector_padded_array_values()
+    -> Result<(), Box<dyn std::error::Error>> {
+        use crate::record::value::array::Values;
+
+        let mut buf = Vec::new();
+
+        // [[5, 8], [13]]
+        let format = Map::<Format>::new(Number::Unknown, format::Type::Integer, String::new());
+        let values = [
+            Some(Value::Array(Array::Integer(Box::new(
+                Values::<'_, i8>::new(&[0x05, 0x08]),
+            )))),
+            Some(Value::Array(Array::Integer(Box::new(
+                Values::<'_, i8>::new(&[0x0d, 0x81]),
+            )))),
+        ];
+        write_values(&mut buf, &format, &values)?;
+        assert_eq!(buf, [0x21, 0x05, 0x08, 0x0d, 0x81]);
+
+        // [[0.0, 1.0], [0.0]]
+        let format = Map::<Format>::new(Number::Unknown, format::Type::Float, String::new());
+        let values = [
+            Some(Value::Array(Array::Float(Box::new(
+                Values::<'_, f32>::new(&[0x00, 0x00, 0x00, 0x00, 0x00, 0x00, 0x80, 0x3f]),
+            )))),
+            Some(Value::Array(Array::Float(Box::new(
+                Values::<'_, f32>::new(&[0x00, 0x00, 0x00, 0x00, 0x02, 0x00, 0x80, 0x7f]),
+            )))),
+        ];
+        buf.clear();
+        write_values(&mut buf, &format, &values)?;
+        assert_eq!(
+            buf,
+            [
+                0x25, // Some(Type::Float(2))
+                0x00, 0x00, 0x00, 0x00, 0x00, 0x00, 0x80, 0x3f, // [0.0, 1.0]
+                0x00, 0x00, 0x00, 0x00, 0x02, 0x00, 0x80, 0x7f, // [0.0]
+            ]
+        );
+
+        Ok(())
+    }
+
+    #[test]
     fn test_write_values_with_float_values() -> Result<(), Box<dyn std::error::Error>> {
         let format = Map::<Format>::new(Number::Count(1), format::Type::Float, String::new());
 
